@@ -1,5 +1,7 @@
 import RedisVerif.Model.Stream
 import RedisVerif.Lemmas.Stream
+import RedisVerif.Lemmas.StreamFold
+import RedisVerif.Lemmas.Apply
 
 /-!
 # C11 — Recovery returns exactly the merge of everything persisted, idempotently
@@ -18,6 +20,11 @@ then the deltas, applied with `apply_remote_delta` (= per-key fold of `RV.merge`
 * `recover_exact`, `recover_order_independent`, `recover_duplicate_tolerant`,
   `recover_idempotent`: via `FoldACI` on the carrier where C07 proves the three laws
   (`Coherent`, decidable).
+* `apply_recovered_equals_fold`, `apply_recovered_equals_foldState`, `recover_and_apply_exact`,
+  `apply_recovered_idempotent`: the application step `ReplicatedShardedState::apply_recovered_
+  state` (`Model/Apply.lean`, on top of M2): on a fresh node, for every router, every key ends
+  up with the checkpoint value of the key with the key's deltas merged in — end to end the merge
+  of everything persisted — and applying the recovered state twice equals once.
 * `recover_with_wal_complete_current`, `recover_with_wal_exact_current`: nothing in the WAL is
   dropped by the current tree (no high-water-mark filter); `hwm_filter_counterexample` refutes
   it for the pinned commit (fixed defect), `recover_with_wal_complete_partial` is what the
@@ -332,6 +339,102 @@ theorem recover_absorbs_every_update {st : Store} {rid : Nat} {r : Recovered}
     ∃ u, NMap.get (foldState r.updates) k = some u ∧ RV.merge v u = u := by
   have hsel := recover_selects_all h hinv
   exact absorbed_of_mem (coherent_of_subset hc (fun d hd => (hsel d).mp hd)) ((hsel (k, v)).mpr hp)
+
+
+/-! ## the applied state: `ReplicatedShardedState::apply_recovered_state` -/
+
+/-- the checkpoint's value of a key (a `HashMap` has at most one; of a list the last wins) -/
+def chkValue (chk : Option (List Delta)) (k : Nat) : Option RV := (vals k (chk.getD [])).getLast?
+
+/-- full-strength statement: on a fresh node, for every router, every key ends up with the
+    checkpoint value of the key (if any) with the key's deltas merged in, in order -/
+def C11_apply_recovered_equals_fold : Prop :=
+  ∀ (route : Nat → Nat) (rid : Nat) (causal : Bool) (chk : Option (List Delta)) (deltas : List Delta) (k : Nat),
+    (applyRecoveredState route (Node.fresh rid causal) chk deltas).value route k =
+      match chkValue chk k with
+      | some c => some ((vals k deltas).foldl RV.merge c)
+      | none => fold1 RV.merge (vals k deltas)
+
+theorem fresh_value (route : Nat → Nat) (rid : Nat) (causal : Bool) (k : Nat) :
+    (Node.fresh rid causal).value route k = none := rfl
+
+/-- **apply_recovered_equals_fold** — no entry of the checkpoint and no delta is skipped or
+    re-ordered per key by the application step, whatever the router and the iteration order of
+    the checkpoint map -/
+theorem apply_recovered_equals_fold : C11_apply_recovered_equals_fold := by
+  intro route rid causal chk deltas k
+  unfold applyRecoveredState chkValue
+  rw [value_foldl_deltas, value_foldl_chk, fresh_value]
+  cases (vals k (chk.getD [])).getLast? <;> rfl
+
+/-- with a checkpoint that is a map (distinct keys) the applied state is, key by key, the fold
+    of the recovered updates -/
+theorem apply_recovered_equals_foldState (route : Nat → Nat) (rid : Nat) (causal : Bool)
+    (chk : Option (NMap RV)) (hwf : ∀ m, chk = some m → NMap.WF m) (deltas : List Delta) (k : Nat) :
+    (applyRecoveredState route (Node.fresh rid causal) chk deltas).value route k =
+      NMap.get (foldState (chk.getD [] ++ deltas)) k := by
+  rw [apply_recovered_equals_fold, get_foldState, vals_append]
+  unfold chkValue
+  have hw : NMap.WF (chk.getD []) := by
+    cases chk with
+    | none => exact NMap.wf_nil
+    | some m => exact hwf m rfl
+  rw [vals_of_wf hw]
+  cases NMap.get (chk.getD []) k <;> simp [fold1]
+
+/-- **recovery end to end** (`StreamingIntegration::recover` on a fresh node): every key holds
+    exactly the merge of everything persisted for it — independent of the router, of segment
+    order, of how updates are split over checkpoint and segments, and of duplicated updates -/
+theorem recover_and_apply_exact {st : Store} {rid : Nat} {r : Recovered} (route : Nat → Nat) (causal : Bool)
+    (h : recover st rid = .ok r) (hinv : ManifestInv r.manifest)
+    (hwf : ∀ m, r.chk = some m → NMap.WF m)
+    (hc : Coherent (persisted st r.manifest))
+    (truth : List Delta) (htruth : ∀ d, d ∈ truth ↔ d ∈ persisted st r.manifest) (k : Nat) :
+    (applyRecoveredState route (Node.fresh rid causal) r.chk r.deltas).value route k =
+      NMap.get (foldState truth) k := by
+  rw [apply_recovered_equals_foldState route rid causal r.chk hwf r.deltas k]
+  have := recover_exact st rid r h hinv hc truth htruth
+  unfold Recovered.updates at this
+  rw [this]
+
+/-- **apply_recovered_idempotent**: applying the recovered state a second time (recovery
+    repeated on a node that already holds its result) changes no key -/
+theorem apply_recovered_idempotent (route : Nat → Nat) (rid : Nat) (causal : Bool)
+    (chk : Option (List Delta)) (deltas : List Delta) (hc : Coherent deltas) (k : Nat) :
+    (applyRecoveredState route (applyRecoveredState route (Node.fresh rid causal) chk deltas) chk deltas).value route k
+      = (applyRecoveredState route (Node.fresh rid causal) chk deltas).value route k := by
+  have h1 := apply_recovered_equals_fold route rid causal chk deltas k
+  rw [h1]
+  unfold applyRecoveredState at h1 ⊢
+  rw [value_foldl_deltas, value_foldl_chk]
+  unfold chkValue at h1 ⊢
+  cases hcv : (vals k (chk.getD [])).getLast? with
+  | some c => rfl
+  | none =>
+    rw [hcv] at h1
+    simp only at h1 ⊢
+    rw [h1]
+    cases hf : fold1 RV.merge (vals k deltas) with
+    | none => rfl
+    | some u =>
+      simp only
+      let c := carrierOf deltas hc
+      have hcar := inCar_vals (inCar_of_coherent hc) k
+      congr 1
+      apply foldl_absorb (c.aci k) (fold1_closed (c.aci k) hcar hf) hcar
+      intro y hy
+      obtain ⟨v, hv, hle⟩ := le_fold1 (c.aci k) hcar hy
+      rw [hf] at hv
+      cases hv
+      exact hle
+
+/-- non-vacuity / the seeded-change witness: the checkpoint holds `session` = tombstone @10, a
+    later segment holds `session` = "alive" @5: the applied value is the tombstone -/
+example : (applyRecoveredState (fun k => k % 16) (Node.fresh 1 false)
+      (some [(1, RV.withValue [107] ⟨3, 1⟩), (2, { crdt := .lww (Lww.delete ⟨10, 1⟩), vc := none, expiry := none, ts := ⟨10, 1⟩, rf := none })])
+      [(2, RV.withValue [97] ⟨5, 1⟩), (3, RV.withValue [111] ⟨7, 1⟩)]).value (fun k => k % 16) 2
+    = some { crdt := .lww (Lww.delete ⟨10, 1⟩), vc := none, expiry := none, ts := ⟨10, 1⟩, rf := none } := by
+  decide
 
 /-! ## WAL replay -/
 
